@@ -9,6 +9,7 @@ import types
 from fractions import Fraction
 
 from . import terms as tm
+from .values import SymSet  # noqa: E402
 from .values import (Sym, SInt, SBool, SStr, SReal, SDec, SErr, Obj, SymSeq, Unsupported,
                      dec_term, is_sym, SComplex, OpaqueVal)
 
@@ -672,6 +673,8 @@ def contains(interp, container, item):
         if not res:
             return False
         return SBool(tm.mk_or(*res))
+    if isinstance(container, SymSet):
+        return contains(interp, container.elems, item)
     if isinstance(container, (set, frozenset)):
         if is_sym(item):
             return contains(interp, tuple(container), item)
